@@ -137,11 +137,10 @@ func exerciseForm(c *core.Case, d *form.Data, where string) {
 	if fieldless {
 		c.Count("setters_after_decode_fieldless_form", 1)
 	}
-	accessors(c, d, where)
 	var vars []string
 	seen := map[string]bool{}
 	d.ForFields(func(f form.FieldData) {
-		if !seen[f.Var] && len(vars) < 6 {
+		if !seen[f.Var] && len(vars) < 3 {
 			seen[f.Var] = true
 			vars = append(vars, f.Var)
 		}
